@@ -48,6 +48,7 @@ type Config struct {
 	Session     *solver.Session
 	InitPkgs    func(path string) bool // run this package's initialiser?
 	PruneBranch bool
+	SkipInitFuncs func(pkgPath string) bool // do not run the user init() functions of these packages
 	ForkFuncs   map[string]bool // functions executed path by path (no merging inside)
 	Trace       bool
 	// ExpectedPanic: message substrings that are not runtime errors of interest
